@@ -4,6 +4,7 @@
 package c08
 
 import (
+	"context"
 	"encoding/json"
 	"fmt"
 	"strings"
@@ -11,6 +12,7 @@ import (
 	"time"
 
 	"github.com/arloliu/go-secs/v2/hsms"
+	"github.com/arloliu/go-secs/v2/secs2"
 
 	"verif/e2"
 	"verif/peer"
@@ -54,6 +56,9 @@ var alphabet = []event{
 	{Kind: "select.rsp"}, {Kind: "deselect.rsp"}, {Kind: "linktest.rsp"}, {Kind: "reject.req"},
 	{Kind: "data.primary"}, {Kind: "data.secondary"}, {Kind: "data.foreign"},
 	{Kind: "ptype"}, {Kind: "stype8"}, {Kind: "ctrl.body"}, {Kind: "connect2"}, {Kind: "select.rsp.own"}, {Kind: "select.rsp.own1"},
+	// not a peer frame: the local application starts a reply-expected send that stays open (T3 = 1 h).
+	// The answers E37 prescribes depend on the peer's frame sequence, not on the local send path
+	{Kind: "app.sendw"},
 }
 
 // ---- reference responder (SEMI E37 / E37.1) ----
@@ -152,6 +157,12 @@ func run(t *testing.T, cfg config, hist []event) (obs []stepObs, fail *failure, 
 			return
 		}
 		var conn2 interface{ SawEOF() bool }
+		var cancels []context.CancelFunc
+		defer func() {
+			for _, c := range cancels {
+				c()
+			}
+		}()
 		for i, ev := range hist {
 			var ex expect
 			sid := uint16(0x2000 + i) // arbitrary session id on control frames: must be echoed where E37 says so
@@ -219,6 +230,16 @@ func run(t *testing.T, cfg config, hist []event) (obs []stepObs, fail *failure, 
 				} else {
 					sent = peer.Ctrl(peer.SSelectRsp, libSession, 0, 1, r.ownSelect)
 					r.ownSelect = 0
+				}
+			case "app.sendw":
+				send = false
+				if r.connected && r.selected {
+					ctx, cancel := context.WithCancel(context.Background())
+					cancels = append(cancels, cancel)
+					w.Go(func() { _, _ = w.C.SendDataMessage(ctx, 1, 1, true, secs2.A("q")) })
+					w.Settle()
+					r.libSys++
+					ex.frames = []string{peer.Data(libSession, 1, 1, true, r.libSys, []byte{0x41, 0x01, 'q'}).Key()}
 				}
 			case "reject.req":
 				sent = peer.Ctrl(peer.SRejectReq, sid, 1, 3, sys) // orphan Reject: ignored
@@ -426,7 +447,7 @@ type replayCase struct {
 func TestCheck(t *testing.T) {
 	vfw.Main(t, "C08", func(c *vfw.Ctx) {
 		c.Level("model_checking")
-		c.Rule("E2 tree search: every history of peer frames of length <= D (quick 3/4, thorough 4/5) over a 16-symbol alphabet {Select/Deselect/Linktest/Separate.req, orphan Select/Deselect/Linktest.rsp, answer to the library's own Select.req, orphan Reject.req, data primary/secondary/foreign-session, PType!=0, undefined SType, control frame with body, second TCP connect / reconnect} replayed on a fresh real hsmsss connection per history (synctest bubble, in-memory network), every step compared with the SEMI E37 reference responder (exact frames FIFO, State(), handler deliveries, connection liveness); plus depth-1: every SType 0..255 x PType {0,1,255} x body {0,1} that is malformed, in selected and not-selected base states; configurations passive/active(after select, during select) x equip/host x session-id validation. state = history prefix (a live connection cannot be cloned), non-trivial = history length >= 1")
+		c.Rule("E2 tree search: every history of peer frames of length <= D (quick 3/4, thorough 4/5) over an 18-symbol alphabet {the local application starting a reply-expected send that stays open (the prescribed answers must not depend on it), Select/Deselect/Linktest/Separate.req, orphan Select/Deselect/Linktest.rsp, answer to the library's own Select.req, orphan Reject.req, data primary/secondary/foreign-session, PType!=0, undefined SType, control frame with body, second TCP connect / reconnect} replayed on a fresh real hsmsss connection per history (synctest bubble, in-memory network), every step compared with the SEMI E37 reference responder (exact frames FIFO, State(), handler deliveries, connection liveness); plus depth-1: every SType 0..255 x PType {0,1,255} x body {0,1} that is malformed, in selected and not-selected base states; configurations passive/active(after select, during select) x equip/host x session-id validation. state = history prefix (a live connection cannot be cloned), non-trivial = history length >= 1")
 		c.Assume("testing/synctest virtual time and durable-blocking detection", "sim in-memory network", "reference responder written from SEMI E37/E37.1 tables", "library-generated system bytes modelled as one per-connection counter starting at 1")
 		if c.Replay != nil {
 			var rc replayCase
